@@ -76,7 +76,9 @@ class C15(CFGProp):
         return [Layer("CFG(2,2,2,<=3)", lambda: G.cfg_cases(2, 2, 2, 0, 3), rep=None, policies=two + ["2@plain", "3@plain"]),
                 Layer("CFG(2,2,3,<=2)", lambda: G.cfg_cases(2, 2, 3, 0, 2), rep=None, policies=two),
                 Layer("CFG(2,2,2,4)", lambda: G.cfg_cases(2, 2, 2, 4, 4), rep=G.is_rep, policies=two),
-                Layer("CFG(3,2,2,<=3)", lambda: G.cfg_cases(3, 2, 2, 0, 3), rep=G.is_rep, policies=two)]
+                Layer("CFG(3,2,2,<=3)", lambda: G.cfg_cases(3, 2, 2, 0, 3), rep=G.is_rep, policies=two),
+                Layer("CFG(2,2,3,3) every 4th", lambda: (c for k, c in enumerate(G.cfg_cases(2, 2, 3, 3, 3)) if k % 4 == 0),
+                      rep=G.is_rep, policies=two[:1])]
 
     def reference(self, case):
         r = self.ref_gram(case, "plain")
